@@ -55,6 +55,12 @@ Proof.
   assert (H := cache_out w id n L E X). apply hot_free in H. exact H.
 Qed.
 
+Lemma hot_escape w fr : Hot w (woid fr) -> Hot (escape w fr) [].
+Proof.
+  intros X. unfold escape. apply hot_recover in X. destruct fr as [[id n]|]; [|exact X].
+  cbn [woid] in X. now apply hot_give.
+Qed.
+
 Lemma hot_free_opt w fr L : Hot w (woid fr ++ L) -> Hot (match fr with Some (id, _) => w_free w id | None => w end) L.
 Proof. destruct fr as [[id n]|]; cbn [woid app]; [apply hot_free|trivial]. Qed.
 
